@@ -160,23 +160,35 @@ class Check:
             self.notes.append("source tie: " + tie["detail"])
         return tie["status"] == "proved"
 
-    SRCO = {"sock": ("SrcSock_inst.v", ["SocketWrapper.__init__", "SocketWrapper._recv", "SocketWrapper.read", "SocketWrapper.readline", "SocketWrapper.dechunk"]),
-            "reader": ("SrcReader_inst.v", ["RTCMReader.read", "RTCMReader._parse_ubx", "RTCMReader._parse_nmea", "RTCMReader._parse_rtcm3",
-                                            "RTCMReader._read_bytes", "RTCMReader._read_line", "RTCMReader._do_error", "RTCMReader.parse"])}
+    SRCO = {"sock": ("SrcOSock.v", ["SrcSock_inst.v"], None,
+                     ["SocketWrapper.__init__", "SocketWrapper._recv", "SocketWrapper.read", "SocketWrapper.readline", "SocketWrapper.dechunk"]),
+            "reader": ("SrcOReader.v", ["SrcReader_inst.v", "SrcReaderIter_inst.v"], "SrcReader_tables_inst.v",
+                       ["RTCMReader.__init__", "RTCMReader.__next__", "RTCMReader.read", "RTCMReader._parse_ubx", "RTCMReader._parse_nmea", "RTCMReader._parse_rtcm3",
+                        "RTCMReader._read_bytes", "RTCMReader._read_line", "RTCMReader._do_error", "RTCMReader.parse"]),
+            "msg": ("SrcOMsg.v", ["SrcMsg_inst.v"], "SrcMsg_tables_inst.v",
+                    ["RTCMMessage.__init__", "RTCMMessage.__setattr__", "RTCMMessage.identity", "RTCMMessage.payload", "RTCMMessage.ismsm",
+                     "RTCMMessage._get_dict", "RTCMMessage._do_unknown", "RTCMMessage.serialize"])}
 
     def source_tie_obj(self, which, with_tables=False):
-        """the same kind of tie for the two stream classes (DESIGN.md 3.4): tools/gen_src2.py translates the CURRENT text of the
-        class's methods into PyO syntax (coq/Src/PyO.v: objects, exceptions, while loops, calls into an abstract environment) and
-        run/Src{Sock,Reader}_inst.v re-proves, against that text, that interpreting it equals Model/Socket.v resp. Model/Reader.v for
-        every state, argument and behaviour of the environment.  Not an obligation (see source_tie)."""
-        inst, funcs = self.SRCO[which]
+        """the same kind of tie for the classes (DESIGN.md 3.4): tools/gen_src2.py translates the CURRENT text of the class's methods
+        into PyO syntax (coq/Src/PyO.v: objects, exceptions, while loops, calls into an abstract environment) and the per-run proof
+        scripts re-prove, against that text, that interpreting it equals the hand-written model for every state, argument and
+        behaviour of the environment.  Not an obligation (see source_tie).  The compiled result is cached by the content of the
+        generated text, of the proof scripts and of the compiled development they import: an unchanged tree pays once."""
+        gen, insts, tables_inst, funcs = self.SRCO[which]
         tie = {"functions": funcs, "status": "not-established", "detail": ""}
         self.extra_cov["source_tie_" + which] = tie
         sub = self.work
-        out = os.path.join(sub, {"sock": "SrcOSock.v", "reader": "SrcOReader.v"}[which])
+        out = os.path.join(sub, gen)
         env = vlib.impl_env()
         env["VERIF_REPO"] = vlib.REPO
-        src = os.path.join(vlib.VERIF, "run", inst)
+        srcs = [os.path.join(vlib.VERIF, "run", i) for i in insts]
+        missing = [x for x in srcs if not os.path.exists(x)]
+        thms = {}
+        if missing:
+            tie["detail"] = "no equivalence proof script (%s)" % ", ".join(os.path.basename(x) for x in missing)
+            self.notes.append("source tie (%s): %s" % (which, tie["detail"]))
+            return False
         try:
             p = subprocess.run([vlib.PY, os.path.join(vlib.VERIF, "tools", "gen_src2.py"), out, which], env=env, capture_output=True, text=True, timeout=120)
         except subprocess.TimeoutExpired:
@@ -184,38 +196,72 @@ class Check:
         if p is None or p.returncode != 0:
             tie["detail"] = "translator refused: " + ((p.stderr or p.stdout)[-400:] if p else "timeout")
         else:
-            ok, log, secs = vlib.coqc(out, sub, 300)
-            if not ok:
-                tie["detail"] = "%s does not compile: %s" % (os.path.basename(out), log[-400:])
+            import glob
+            import hashlib
+            h = hashlib.sha256()
+            h.update(open(out, "rb").read())
+            for x in srcs:
+                h.update(open(x, "rb").read())
+            for d in sorted(glob.glob(os.path.join(vlib.COQDIR, "Src", "*.vo")) + glob.glob(os.path.join(vlib.COQDIR, "Model", "*.vo")) + glob.glob(os.path.join(vlib.COQDIR, "Base", "*.vo"))):
+                h.update(os.path.basename(d).encode())
+                h.update(hashlib.sha256(open(d, "rb").read()).digest())
+            cache = os.path.join(vlib.VERIF, "work", "srco-cache", which + "-" + h.hexdigest()[:40])
+            vos = [gen[:-2] + ".vo"] + [i[:-2] + ".vo" for i in insts]
+            log = None
+            if os.path.exists(os.path.join(cache, "ok")) and all(os.path.exists(os.path.join(cache, v)) for v in vos):
+                for v in vos:
+                    shutil.copy(os.path.join(cache, v), os.path.join(sub, v))
+                log = open(os.path.join(cache, "log.txt")).read()
+                secs = 0.0
+                how = "cached"
             else:
-                dst = os.path.join(sub, inst)
-                shutil.copy(src, dst)
-                ok, log, secs2 = vlib.coqc(dst, sub, 900)
+                ok, lg, secs = vlib.coqc(out, sub, 300)
                 if not ok:
-                    tie["detail"] = "equivalence proof does not go through on the current text: " + log[-600:]
+                    tie["detail"] = "%s does not compile: %s" % (gen, lg[-400:])
                 else:
-                    thms = self._parse_assumptions(log)
-                    bad = {k: v for k, v in thms.items() if [a for a in v if not self._axiom_allowed(a)]}
-                    if bad or not thms:
-                        tie["detail"] = "unexpected assumptions: %r" % bad
-                    else:
-                        tie["status"] = "proved"
-                        tie["detail"] = "interpretation of the translated source = model, for all states, arguments and environments (%.1fs)" % (secs + secs2)
-                        if which == "reader" and with_tables:
-                            src2 = os.path.join(vlib.VERIF, "run", "SrcReader_tables_inst.v")
-                            dst2 = os.path.join(sub, "SrcReader_tables_inst.v")
-                            shutil.copy(src2, dst2)
-                            ok3, log3, _ = vlib.coqc(dst2, sub, 300)
-                            t3 = self._parse_assumptions(log3) if ok3 else {}
-                            if ok3 and t3 and not [a for v in t3.values() for a in v if not self._axiom_allowed(a)]:
-                                thms.update(t3)
-                                tie["detail"] += "; constants of the source text = the working tree's tables, real constructor discharges the no-EOFError hypothesis"
-                            else:
-                                tie["detail"] += "; NOT coupled to the working tree's tables: " + log3[-300:]
-                        for name, ax in thms.items():
-                            self.axioms[name] = ax
-                            self.oblige("source theorem %s: PyO interpretation of the current source text = model (Print Assumptions: %s)"
-                                        % (name, "closed" if not ax else ", ".join(ax)), "source-theorem", True)
+                    log = ""
+                    for i, src in zip(insts, srcs):
+                        dst = os.path.join(sub, i)
+                        shutil.copy(src, dst)
+                        ok, lg, s2 = vlib.coqc(dst, sub, 900)
+                        secs += s2
+                        if not ok:
+                            tie["detail"] = "equivalence proof %s does not go through on the current text: %s" % (i, lg[-600:])
+                            log = None
+                            break
+                        log += lg
+                    how = "%.1fs" % secs
+                    if log is not None:
+                        try:
+                            os.makedirs(cache, exist_ok=True)
+                            for v in vos:
+                                shutil.copy(os.path.join(sub, v), os.path.join(cache, v))
+                            open(os.path.join(cache, "log.txt"), "w").write(log)
+                            open(os.path.join(cache, "ok"), "w").write("ok")
+                        except OSError:
+                            pass
+            if log is not None:
+                thms = self._parse_assumptions(log)
+                bad = {k: v for k, v in thms.items() if [a for a in v if not self._axiom_allowed(a)]}
+                if bad or not thms:
+                    tie["detail"] = "unexpected assumptions: %r" % bad
+                else:
+                    tie["status"] = "proved"
+                    tie["detail"] = "interpretation of the translated source = model, for all states, arguments and environments (%s)" % how
+                    if tables_inst and with_tables and os.path.exists(os.path.join(vlib.VERIF, "run", tables_inst)):
+                        dst2 = os.path.join(sub, tables_inst)
+                        shutil.copy(os.path.join(vlib.VERIF, "run", tables_inst), dst2)
+                        ok3, log3, _ = vlib.coqc(dst2, sub, 300)
+                        t3 = self._parse_assumptions(log3) if ok3 else {}
+                        if ok3 and t3 and not [a for v in t3.values() for a in v if not self._axiom_allowed(a)]:
+                            thms.update(t3)
+                            tie["detail"] += "; constants of the source text = the working tree's tables, hypotheses discharged for the real tables"
+                        else:
+                            tie["detail"] += "; NOT coupled to the working tree's tables: " + log3[-300:]
+                    for name, ax in thms.items():
+                        self.axioms[name] = ax
+                        self.oblige("source theorem %s: PyO interpretation of the current source text = model (Print Assumptions: %s)"
+                                    % (name, "closed" if not ax else ", ".join(ax)), "source-theorem", True)
         if tie["status"] != "proved":
             self.force_thorough = True
             self.notes.append("source tie (%s) not established (%s): falling back to the sampled correspondence with the thorough corpus" % (which, tie["detail"][:300]))
